@@ -174,6 +174,7 @@ func main() {
 	replay := flag.String("replay", "", "replay file (run section)")
 	free := flag.Bool("free", false, "c18: free-running goroutines (race-detector configuration)")
 	flag.Parse()
+	hrt.StartMemWatchdog(10 << 30)
 	ws, err := loadWorlds(*specs)
 	if err != nil {
 		fmt.Fprintln(os.Stderr, "runsim:", err)
